@@ -409,6 +409,7 @@ def run_scenarios(scens, patches_cm, timeout_ms=10000, max_paths=4000, wall_s=12
     stats = core.Stats()
     rnd = random.Random(seed)
     import os
+    div_zero = os.environ.get('VERIF_DIV_ZERO', div_zero)      # experiments only: 'fork' lets a division by a possibly-zero term raise instead of assuming it away
     for scen in scens:
         _t0 = time.time()
         out['shapes'] += 1
